@@ -188,6 +188,9 @@ pub fn byte_patterns() -> Vec<Pat> {
     for t in [&b"\xff"[..], b"\x00", b"a\x80", b"\xc3\xa9", b"\xe2\x82\xac"] {
         v.push(Pat::btoken(t));
     }
+    for t in [&b"a\x80"[..], b"\x80", b"K\x7f", b"\xc3\x89t"] {
+        v.push(Pat::btoken(t).icase());
+    }
     v
 }
 
